@@ -11,7 +11,7 @@ from ..model import qual, get_kw
 from ..symx import Expander, ref_eval
 from ..anf import R
 from .. import anf
-from .common import memo_obligations, dtype_hazard_obligations, formula_ob, struct_ob, guard, last_return, U
+from .common import stored_state_obligations, memo_obligations, dtype_hazard_obligations, formula_ob, struct_ob, guard, last_return, U
 from ..report import AnalysisError
 from ..term import Resolver, pmatch, find_all, abstract, anf_of
 from ..seq import Layouts, UNKNOWN, show
@@ -33,7 +33,7 @@ CLASS_LAW = {
 }
 FLOORS = {"float-arithmetic": 2, "density-form": 3, "gradient-is-derivative": 3, "sampler-density-agreement": 3,
           "bounds-are-support": 3, "support-guard": 2, "routing": 7, "posterior-sum": 4,
-          "guess-order": 1, "combine-coverage": 1, "received-arrays": 4}
+          "guess-order": 1, "combine-coverage": 1, "received-arrays": 4, "components-not-updated": 6}
 
 T = "theta[self.variables]"
 
@@ -228,6 +228,18 @@ def run(prog, tier):
     c, fn = prog.method("Posterior", "generate_initial_guesses")
     obs.append(_guess_order(c, fn))
     obs.extend(_received_arrays_not_mutated(prog))
+    # building a combined / joint / posterior object never updates the component objects it is given
+    sites = []
+    for ci in [prog.cls("BasePrior")] + prog.subclasses("BasePrior") + [prog.cls("Posterior")]:
+        for mname in ("combine", "__init__"):
+            fn = ci.methods.get(mname)
+            if fn is None or len(fn.args.args) < 2:
+                continue
+            roots = {a.arg: a.arg for a in fn.args.args[1:]}
+            sites.append((ci, fn, roots, None))
+    obs.extend(stored_state_obligations(prog, "components-not-updated", sites,
+                                        "the component object handed in is changed, so it no longer describes its own variables when it "
+                                        "is used again (alone, or in another joint prior built in a different order)"))
 
     obs.extend(dtype_hazard_obligations(prog, "float-arithmetic", ['inference/priors.py', 'inference/posterior.py']))
 
